@@ -21,6 +21,8 @@ type Env struct {
 	local   func(string) (Val, bool)
 	bound   map[string]Val
 	inOld   bool
+	callSite bool // evaluating a callee's contract at a call site (as opposed to the function's own contract)
+	dualQuant bool // the formula being built is assumed: a forall is emitted in both index forms (see forall)
 }
 
 // contractEnv builds the environment for the function's own contract.
@@ -619,13 +621,23 @@ func (env *Env) evalCall(x *ast.CallExpr) Val {
 			}
 			env.bound[vid.Name] = bv
 			t := env.evalBool(body)
+			out := fmt.Sprintf("(%s ((%s %s)) %s)", id.Name, bname, ls[0].Sort, t)
+			if env.dualQuant && id.Name == "forall" && len(bv.L) == 1 && bv.L[0] != bname {
+				// an assumed forall is stated both over the absolute cell position (above) and over the index itself:
+				// the two are equivalent, each offers the solver a different trigger (a slice cell / a string or
+				// other term indexed directly by the bound variable)
+				b2 := qsym(fc.fresh("q_" + vid.Name))
+				env.bound[vid.Name] = Val{T: vt, L: []string{b2}}
+				t2 := env.evalBool(body)
+				out = and(out, fmt.Sprintf("(forall ((%s %s)) %s)", b2, ls[0].Sort, t2))
+			}
 			if had {
 				env.bound[vid.Name] = saved
 			} else {
 				delete(env.bound, vid.Name)
 			}
 			fc.hasQuant = true
-			return boolVal(fmt.Sprintf("(%s ((%s %s)) %s)", id.Name, bname, ls[0].Sort, t))
+			return boolVal(out)
 		case "ite":
 			c := env.evalBool(x.Args[0])
 			a, b := env.eval(x.Args[1]), env.eval(x.Args[2])
@@ -666,6 +678,19 @@ func (env *Env) evalCall(x *ast.CallExpr) Val {
 				ref = v.L[1]
 			}
 			return Val{T: types.Typ[types.Int64], L: []string{app(fname, ref)}}
+		case "fresh":
+			// fresh(x): the object x refers to was allocated by this call (it is no object that existed before).
+			// In the function's own proof: its address is not below allocbase. At a call site: it is a new
+			// allocation of the caller's model, distinct from every other object.
+			v := env.eval(x.Args[0])
+			ref := v.L[0]
+			if len(v.L) == 3 {
+				ref = v.L[1]
+			}
+			if env.callSite {
+				return boolVal(eq(ref, fc.allocRef()))
+			}
+			return boolVal(app("bvuge", ref, "allocbase"))
 		case "haskey":
 			m := env.eval(x.Args[0])
 			mt := m.T.Underlying().(*types.Map)
@@ -684,7 +709,7 @@ func (env *Env) evalCall(x *ast.CallExpr) Val {
 			if len(p.Params) != len(x.Args) {
 				userErr("pred %s: wrong number of arguments", id.Name)
 			}
-			sub := &Env{fc: fc, pkg: env.pkg, vars: map[string]Val{}, st: env.st, old: env.old, bound: env.bound, inOld: env.inOld}
+			sub := &Env{fc: fc, pkg: env.pkg, vars: map[string]Val{}, st: env.st, old: env.old, bound: env.bound, inOld: env.inOld, callSite: env.callSite, dualQuant: env.dualQuant}
 			for i, a := range x.Args {
 				v := env.eval(a)
 				pe, err := parseExprSrc(p.Params[i][1])
